@@ -454,7 +454,7 @@ func c12hpInitClass(c *c12hpInitCase, o *c12hpInitObs) (class, sig string) {
 	for _, co := range o.Coords {
 		fmt.Fprintf(&sb, "R[%s %d %v %s]", co.GotType, len(co.GotAddrs), co.GotSync, co.Answered)
 	}
-	sig = class + "|" + sb.String() + fmt.Sprintf("|d=%v>%v", o.DirectAtStart, o.DirectAtReturn)
+	sig = fmt.Sprintf("ps=%d|", c.PsMask) + class + "|" + sb.String() + fmt.Sprintf("|d=%v>%v", o.DirectAtStart, o.DirectAtReturn)
 	return class, sig
 }
 
@@ -614,9 +614,11 @@ func c12hpInitiator(t *testing.T) {
 	classes := map[string]bool{}
 	idx := -1
 	problems := 0
+	overDirect := 0
 	c12hpInitCases(thorough, func(c c12hpInitCase) bool {
 		idx++
-		if idx%nshards != shard {
+		// work is split by peerstore subset, which is part of the signature: per-worker distinct counts add up exactly
+		if c.PsMask%nshards != shard {
 			return true
 		}
 		if r.Executions%512 == 0 && time.Now().After(deadline) {
@@ -633,6 +635,9 @@ func c12hpInitiator(t *testing.T) {
 		}
 		r.Executions++
 		class, sig := c12hpInitClass(&c, &o)
+		if strings.Contains(class, "stream-over-direct-conn") {
+			overDirect++
+		}
 		r.Outcome(class)
 		distinct[sig] = struct{}{}
 		if !classes[class] {
@@ -649,4 +654,5 @@ func c12hpInitiator(t *testing.T) {
 	})
 	r.Distinct = int64(len(distinct))
 	r.Note("cases enumerated (all shards): %d; outcome classes in this shard: %d", idx+1, len(classes))
+	r.Note("observation, not judged: in %d executions of this shard (late-inbound-direct sub-space) the retry opened its coordination stream after an inbound direct connection had appeared during the failed attempt, so the stream rode the direct connection (directConnect does not re-check getDirectConnection between attempts); the flags on the stream were still allow-limited + no-dial", overDirect)
 }
